@@ -1237,6 +1237,14 @@ def the_loop(it) -> z3.ExprRef:
 
 @spec("asyncio.get_running_loop", "asyncio.get_event_loop")
 def _get_loop(it, lv, ca, node):
+    c = it.st.contract
+    if lv.name == "asyncio.get_event_loop" and getattr(c, "loop_may_be_absent", False):
+        # T-LOOP: in a thread that has no event loop (run_in_executor / to_thread workers, which inherit the caller's
+        # context and hence its scopes) get_event_loop() raises RuntimeError; contracts opt in to this outcome
+        used("T-LOOP")
+        if it.st.fork("get_event_loop", [("loop-of-this-thread", True), ("no-event-loop-in-this-thread", True)]) == 1:
+            it.st.ghost["$no_loop"] = True
+            raise PyRaise(it.new_exc("RuntimeError"), "There is no current event loop in this thread")
     return the_loop(it)
 
 
@@ -1704,8 +1712,12 @@ def _tg_aenter(it, lv, ca, node):
 
 @spec("await:tg-enter")
 def _await_tg_enter(it, aw, idx, node):
-    it.st.put(aw.data["group"], "$tg_entered", it.mk_bool(True))
-    return aw.data["group"]
+    g = aw.data["group"]
+    # T-TG: a TaskGroup is single use - entering it a second time raises RuntimeError and changes nothing
+    if it.st.decide(V.bval(it.st.get(g, "$tg_entered")), "TaskGroup.__aenter__:already-entered"):
+        raise PyRaise(it.new_exc("RuntimeError"), "TaskGroup has already been entered")
+    it.st.put(g, "$tg_entered", it.mk_bool(True))
+    return g
 
 
 @spec("TaskGroup.__aexit__")
